@@ -31,14 +31,15 @@ GLOBAL_ASSUMPTIONS = [
 # for functions the verifier could not decide (contract no longer fits the code, unsupported construct, solver timeout) and
 # in the thorough tier as an extra exploration; what they cover is reported as *bounded*, never as proved.
 BOUNDED = [
-    dict(prefix=('ml_pipeline_engine/dag_builders/annotation/builder.py::',), script='bounded/builder.py', props=('C15', 'C16', 'C17')),
+    dict(prefix=('ml_pipeline_engine/dag_builders/annotation/builder.py::',), script='bounded/builder.py', props=('C09', 'C15', 'C16', 'C17')),
     dict(prefix=('ml_pipeline_engine/artifact_store/',), script='bounded/fsstore.py', props=('C18',)),
     dict(prefix=('ml_pipeline_viewer/',), script='bounded/viewer.py', props=('C20',)),
     dict(prefix=('ml_pipeline_engine/dag/manager.py::', 'ml_pipeline_engine/dag/storage.py::', 'ml_pipeline_engine/dag/dag.py::',
                  'ml_pipeline_engine/dag/retrying.py::', 'ml_pipeline_engine/context/dag.py::', 'ml_pipeline_engine/node/node.py::',
-                 'ml_pipeline_engine/chart.py::', 'ml_pipeline_engine/dag/graph.py::'),
+                 'ml_pipeline_engine/chart.py::', 'ml_pipeline_engine/dag/graph.py::', 'ml_pipeline_engine/events.py::',
+                 'ml_pipeline_engine/parallelism/', 'ml_pipeline_engine/module_loading.py::', 'ml_pipeline_engine/node/retrying.py::'),
          script='bounded/engine.py',
-         props=('C01', 'C02', 'C03', 'C04', 'C05', 'C06', 'C07', 'C08', 'C09', 'C10', 'C11', 'C12', 'C13', 'C14', 'C19')),
+         props=('C01', 'C02', 'C03', 'C04', 'C05', 'C06', 'C07', 'C08', 'C09', 'C10', 'C11', 'C12', 'C13', 'C14', 'C17', 'C19')),
 ]
 VENV_PY = '/venv/bin/python'
 
@@ -58,6 +59,25 @@ def run_bounded(h, prop, out_dir):
     fails = [f for f in res.get('failures', []) if f.get('property') == prop]
     return dict(ok=not fails, failures=fails, cases=res.get('cases'), bound=res.get('bound'), path=jpath, rc=r.returncode,
                 script=h['script'])
+
+
+def fuzz_function(contract_key, seed=0, n=40):
+    import subprocess
+    import tempfile
+    from pyvc import repo as repo_mod
+    with tempfile.NamedTemporaryFile('w', suffix='.json', delete=False) as f:
+        jpath = f.name
+    try:
+        subprocess.run(['python3-vt', os.path.join(VERIF, 'tools', 'conformance.py'), str(n), str(seed), '--only', contract_key, '--json', jpath],
+                       capture_output=True, text=True, cwd=VERIF, timeout=900, env=dict(os.environ, PYVC_REPO=repo_mod.REPO_ROOT))
+        return json.load(open(jpath))
+    except Exception as e:   # noqa: BLE001
+        return dict(error=f'{type(e).__name__}: {e}', executions=0, disagreements=[])
+    finally:
+        try:
+            os.unlink(jpath)
+        except OSError:
+            pass
 
 
 def obligation_props(name, props):
@@ -130,6 +150,7 @@ def check_property(prop, tier='quick', seed=0):
                         f"{v['name']}: solver gave no answer ({v.get('reason', '')})")
 
     lines = []
+    not_violations = []
     violations = []
     known_hits = []
     n_discharged = 0
@@ -158,6 +179,22 @@ def check_property(prop, tier='quick', seed=0):
             else:
                 n_obl += 1
                 rep = try_replay(prop, v)
+                w = v.get('witness') or {}
+                if rep and rep.get('replayed') and not rep.get('reproduced') and w.get('contract'):
+                    # the function has a realiser and the solver's (candidate) counter-model, run on the REAL code, satisfies the
+                    # contract: a failed proof, not yet a violation.  Look for a real failing input among random real executions
+                    # of this function (tools/conformance.py); only such an input makes it a violation.
+                    fz = fuzz_function(w['contract'], seed)
+                    if fz.get('disagreements'):
+                        rep = dict(replayed=True, reproduced=True, how='random real executions of the function (tools/conformance.py); '
+                                   'the solver\'s own counter-model did not fail on the real code',
+                                   failing_inputs=fz['disagreements'][:3])
+                    else:
+                        undecided_keys.setdefault(w['contract'], []).append(
+                            f"{v['name']}: no proof, but the solver's counter-model does not fail on the real code and "
+                            f"{fz.get('executions', 0)} random real executions of the function satisfy its contract")
+                        not_violations.append(dict(obligation=v['name'], counter_model_replay=rep, random_real_executions=fz.get('executions')))
+                        continue
                 path = write_replay(prop, v, rep)
                 violations.append((v, path, bool(rep and rep.get('reproduced'))))
 
@@ -297,6 +334,7 @@ def check_property(prop, tier='quick', seed=0):
             dropped_by_extraction=DROPPED,
             repo_digest=repo.digest.hexdigest(),
             seeded_self_test=self_test,
+            failed_proofs_not_reproduced_on_real_code=not_violations,
             conformance_storage=(dict(executions=conformance.get('executions'), disagreements=len(conformance.get('disagreements') or []),
                                       error=conformance.get('error'),
                                       note='bounded CPython cross-check: random small states and arguments run on the real storage '
